@@ -61,6 +61,13 @@ pub fn node(label: &'static str, l: i64, r: i64, kids: Vec<Tree>) -> Tree {
     LOG.with(|g| g.borrow_mut().push(format!("A:{label}:{l}:{r}")));
     Tree::Node(label, l, r, kids)
 }
+/// node built from `<>` (whatever lalrpop substitutes for it: named bindings or anonymous selections)
+#[macro_export]
+macro_rules! nodex {
+    ($label:expr; $($x:expr),* $(,)?) => {
+        $crate::rt::node($label, 0, 0, vec![$($crate::rt::Tree::from($x)),*])
+    };
+}
 pub fn probe(label: &'static str, pos: usize, kind: char, v: i64) {
     LOG.with(|g| g.borrow_mut().push(format!("B:{label}:{pos}:{kind}:{v}")));
 }
